@@ -33,6 +33,9 @@ CLAIMED = {
  "C11": ("single-fault mutation testing: conformant-by-construction data must be accepted, data with exactly one injected violation (20 kinds, any depth) must be rejected, through every schema-taking entry point", "5.11",
          "Generated conformant stores/requests are accepted by all 11 entry points; each of 20 fault kinds is injected alone and every entry point documented to cover the faulted component must reject. Two listed findings (Context::from_json_value leaf validation) are reported as KNOWN-FINDING.",
          "trusted: World-S conformance by construction, fault mutators, fault->entry point table from the API docs"),
+ "C13": ("property-based testing of partial evaluation against ground truth: unknowns introduced by erasure, several substitutions per case, concrete authorization of the substituted inputs as oracle", "5.13",
+         "Principal/resource (typed or untyped), context (whole or per attribute), entity attributes and whole entities are made unknown; for the erased values and for random values of the declared kinds the definite decision, must/may-determining sets, definite buckets and reauthorize are compared with concrete authorization.",
+         "trusted: ordinary authorization as ground truth (itself checked by C01/C02); one listed finding (debug assertion on residuals with template slots) is reported as KNOWN-FINDING"),
  "C14": ("property-based testing of TPE against concrete completions: partial inputs derived from a concrete world by erasure; residuals, views, reauthorization and permission queries compared with ordinary authorization / brute force", "5.14",
          "The concrete world is a consistent completion by construction; further completions regenerate the erased parts. Definite decisions, per-policy residual outcomes, agreement of all response views, reauthorize and the three query functions are checked on every completion.",
          "trusted: World-S conformance, conformant regeneration of erased parts; residuals evaluated by the ordinary authorizer"),
